@@ -732,3 +732,69 @@ def run(ctx):
     _run_main_sp(ctx)
     extras_spellings(ctx)
     ctx.flush()
+
+
+# ---- round 8: load -> change the object -> save BACK onto the file it came from -> load (seed C16-r8-2: a 'nothing changed' shortcut in the
+# writer keyed on the source file's stamp, missed by mutators that do not go through reset_values) ------------------------------------------------
+
+def _x4_load_change_save(ctx, cur, tmp):
+    import eqsig
+    from eqsig import loader
+    rng = ctx.rng
+    changes = [('running_average', lambda s: s.running_average(3)), ('add_constant', lambda s: s.add_constant(0.5)),
+               ('remove_poly', lambda s: s.remove_poly(1)), ('reset_values', lambda s: s.reset_values(np.array(s.values) * 2.0 + 1.0)),
+               ('add_series', lambda s: s.add_series(np.arange(s.npts) * 0.25)), ('remove_average', lambda s: s.remove_average()),
+               ('rebase_displacement', lambda s: s.rebase_displacement()), ('remove_rolling_average', lambda s: s.remove_rolling_average(mtype='acceleration', freq_window=9)),
+               ('in-place edit of .values', lambda s: s.values.__setitem__(slice(None), np.array(s.values) + 0.125))]
+    loaders = [('load_asig', lambda p: loader.load_asig(p)), ('load_sig', lambda p: loader.load_sig(p)), ('load_signal', lambda p: loader.load_signal(p, astype='acc_sig')),
+               ('load_asig(load_label=True)', lambda p: loader.load_asig(p, load_label=True))]
+    for it in range(len(changes) * (2 if ctx.tier == 'quick' else 8)):
+        cname, change = changes[it % len(changes)]
+        lname, load = loaders[(it // len(changes) + it) % len(loaders)]
+        n = rng.choice([9, 16, 40])
+        v = np.array(gen_values(rng, n, 'dyadic'))
+        dt = rng.choice(DTS)
+        p = os.path.join(tmp, 'lcs%d.txt' % it)
+        # the default label of a loaded object is 'm1': half of the files carry exactly that label, so that object and file agree in every respect but the values
+        s0 = eqsig.AccSignal(v, dt, label=('m1' if it % 2 == 0 else 'rec %d' % it))
+        r = call_impl(loader.save_signal, p, s0)
+        if r[0] != 'ok':
+            continue
+        ld = call_impl(load, p)
+        if ld[0] != 'ok':
+            continue
+        s = ld[1]
+        inputs = {'values': v, 'dt': dt, 'loader': lname, 'change': cname, 'path': 'the file the object was loaded from'}
+        ch = call_impl(change, s)
+        if ch[0] != 'ok':
+            ctx.hist('load-change-save/change not applicable: ' + cname)
+            continue
+        want = np.array(s.values, dtype=float)
+        if np.array_equal(np.round(want, 6), np.round(v, 6)):
+            continue
+        ctx.hist('load-change-save/' + cname)
+        ctx.count_case(('lcs', v.tobytes(), dt, cname, lname), True)
+        sv = call_impl(loader.save_signal, p, s)
+        back = call_impl(loader.load_values_and_dt, p)
+        ok = sv[0] == 'ok' and back[0] == 'ok' and len(back[1][0]) == len(want) and bool(np.all(np.abs(np.asarray(back[1][0]) - want) <= 0.5000001e-6 + 1e-12 * np.abs(want)))
+        ctx.oracle('C16.b a loaded signal that was changed and saved back onto its file loads as the CHANGED signal (values to 6 decimals)', ok, inputs,
+                   detail={'saved': sv[0], 'loaded': back[0] if back[0] != 'ok' else np.asarray(back[1][0])[:6], 'want': want[:6]})
+
+
+def extras_load_change_save(ctx):
+    from _hxb_common import guarded_sections
+    os.makedirs(WORK, exist_ok=True)
+    tmp = tempfile.mkdtemp(dir=WORK, prefix='c16l-')
+    try:
+        guarded_sections(ctx, 'C16', [('load-change-save', lambda c, cur: _x4_load_change_save(c, cur, tmp))])
+    finally:
+        shutil.rmtree(tmp, ignore_errors=True)
+
+
+_run_main_lcs = run
+
+
+def run(ctx):
+    _run_main_lcs(ctx)
+    extras_load_change_save(ctx)
+    ctx.flush()
